@@ -327,6 +327,57 @@ theorem inv_run (t : Ty) (y : Sys) (steps : List Step) (h : Inv t y) : Inv t (ru
   | nil => exact h
   | cons e es ih => exact ih (step t y e) (inv_step t y e h)
 
+/-- **A request of ANOTHER type touches the watch of `t` in one way only**: it may mark it for a forced response
+    (a new CDS watch marks EDS: warming).  This is why the closed loop for one type can treat the rest of the
+    stream as the environment step `envAlways`. -/
+theorem other_type_request_only_marks (s : State) (r : Req) (t : Ty) (hne : r.ty ≠ t) (b : Bool) (sub : List String)
+    (s' : State) (hr : shouldRespond s r = .out b sub s') :
+    s' t = s t ∨ ∃ w, s t = some w ∧ s' t = some { w with always := true } := by
+  have hne' : t ≠ r.ty := fun e => hne e.symm
+  have hnew : ∀ names, newWatched s r.ty names t = s t ∨
+      ∃ w, s t = some w ∧ newWatched s r.ty names t = some { w with always := true } := by
+    intro names
+    unfold newWatched
+    by_cases ht : t ∈ r.ty.warming
+    · have hc : r.ty = .cds ∧ t = .eds := by
+        cases hty : r.ty <;> simp [hty, Ty.warming] at ht
+        exact ⟨rfl, ht⟩
+      obtain ⟨hc1, hc2⟩ := hc
+      subst hc2
+      simp only [hc1, Ty.warming, markWarming]
+      cases hs : s .eds with
+      | none => left; simp [State.set, hs]
+      | some w => right; exact ⟨w, rfl, by simp [State.set, hs]⟩
+    · left
+      rw [markWarming_other _ _ _ ht]
+      exact State.set_other _ _ _ _ hne'
+  rcases respond_cases s r with ⟨msg, w, _, _, h1⟩ | heq
+  · rw [h1] at hr
+    injection hr with _ _ hs
+    left; rw [← hs]; exact State.set_other _ _ _ _ hne'
+  · rw [heq, shouldRespond_noerr s r.clean rfl] at hr
+    have hty : r.clean.ty = r.ty := rfl
+    unfold respondTail at hr
+    simp only [hty] at hr
+    split at hr
+    · injection hr with _ _ hs
+      left; rw [← hs]; exact State.set_other _ _ _ _ hne'
+    · split at hr
+      · injection hr with _ _ hs
+        rw [← hs]; exact hnew _
+      · split at hr
+        · injection hr with _ _ hs
+          rw [← hs]; exact hnew _
+        · split at hr
+          · injection hr with _ _ hs
+            rw [← hs]; exact hnew _
+          · split at hr
+            · injection hr with _ _ hs
+              left; rw [hs]
+            · have hset : ∀ v, (s.set r.ty v) t = s t := fun v => State.set_other _ _ _ _ hne'
+              repeat' split at hr
+              all_goals (injection hr with _ _ hs; left; rw [← hs]; exact hset _)
+
 /-- The last sentence of the property for the code with the repairs `f`: after EVERY exchange from a fresh
     stream, whenever both channels are empty, the client has spoken and its last message was not a rejection,
     the record equals the client's names. -/
